@@ -43,6 +43,16 @@ REG_RULE = ("case = one registry (prefix / common labels incl. invalid ones) + 2
             "overlapping pools) + 4-16 register/unregister/redefine/gather calls; non-trivial = at least two successful and one refused registration; distinct by request text")
 
 PROPS = {
+    "C17": dict(
+        module="Prom.Props.C17",
+        areas=[dict(area="fall", quick=4000, thorough=150000)],
+        rule="case = one call of a Result-returning API under catch_unwind: histogram constructors over adversarial bucket lists, linear/exponential_buckets over every f64 class and counts 0-6, "
+             "all 11 constructors over adversarial names, get_metric_with_label_values / get_metric_with / remove_label_values / remove with cardinalities 0-5 and wrong names, Registry::new_custom, "
+             "TextEncoder on strings with multi-byte characters next to escaped ones, both encoders on hand-built families of every MetricType (empty name, no samples, mismatching value slots, failing writer); "
+             "non-trivial = the call returns Err; distinct by request text (register/unregister histories are covered by the reg area of C06)",
+        trusted=["the panic-explicit model mirrors the partial operations of the source by hand (unwrap, indexing, len()-1, str slicing); the differential run compares outcome classes",
+                 "arguments of unbounded size (capacity overflow in Vec::with_capacity) are outside"],
+    ),
     "C18": dict(
         module="Prom.Props.C18",
         areas=[dict(area="timer", quick=2000, thorough=80000)],
